@@ -325,48 +325,93 @@ func c14Distributor(c *Ctx, dist *ssa.Function) {
 	}
 	c.Check(uncond, "C14.N4-distributor", key+" › every listener, in list order", snd.Pos(),
 		"plain range over the listener list; the send is the whole loop body (no filter, break or default)", "forwarding loop can skip a listener (conditional send, break or non-blocking select)")
-	// the list is local: a phi/alloc of this function, never stored to a field or passed to a call
+	// the list is local: a phi/alloc of this function, never stored to a field or passed to a call — or, when the
+	// select lives in a step helper of the distributor loop, the helper's parameter: then private in the helper
+	// (only handed back as its result) and a local of the loop that goes nowhere but into that helper
+	escapesFrom := func(root ssa.Value, allowed *ssa.Function) bool {
+		escapes := false
+		seen := map[ssa.Value]bool{}
+		var walk func(v ssa.Value)
+		walk = func(v ssa.Value) {
+			if seen[v] {
+				return
+			}
+			seen[v] = true
+			if refs := v.Referrers(); refs != nil {
+				for _, r := range *refs {
+					switch r := r.(type) {
+					case *ssa.Store:
+						if r.Val == v {
+							escapes = true
+						}
+					case *ssa.Phi:
+						walk(r)
+					case *ssa.Slice:
+						walk(r)
+					case *ssa.Extract:
+						walk(r)
+					case ssa.CallInstruction:
+						if b, ok := r.Common().Value.(*ssa.Builtin); ok && (b.Name() == "append" || b.Name() == "len") {
+							if rv, ok := r.(ssa.Value); ok {
+								walk(rv)
+							}
+						} else if sc := r.Common().StaticCallee(); sc != nil && readOnlySliceFunc(sc) {
+							// read-only standard library search over the list
+						} else if sc != nil && allowed != nil && sc == allowed {
+							if rv, ok := r.(ssa.Value); ok {
+								walk(rv) // what the step helper hands back is the list again
+							}
+						} else {
+							escapes = true
+						}
+					case *ssa.MakeClosure:
+						escapes = true
+					}
+				}
+			}
+		}
+		walk(root)
+		return escapes
+	}
 	local := list != nil && (list.Op == "phi" || list.Op == "var" || list.Op == "alloc")
 	if local {
-		escapes := false
 		if ph, ok := list.V.(*ssa.Phi); ok {
-			seen := map[ssa.Value]bool{}
-			var walk func(v ssa.Value)
-			walk = func(v ssa.Value) {
-				if seen[v] {
-					return
-				}
-				seen[v] = true
-				if refs := v.Referrers(); refs != nil {
-					for _, r := range *refs {
-						switch r := r.(type) {
-						case *ssa.Store:
-							if r.Val == v {
-								escapes = true
+			local = !escapesFrom(ph, nil)
+		}
+	} else if list != nil {
+		// rooted at a parameter of a step helper
+		var prm *ssa.Parameter
+		list.Find(func(y *X) bool {
+			if p, ok := y.V.(*ssa.Parameter); ok && p.Parent() == dist {
+				prm = p
+			}
+			return false
+		})
+		if p, ok := strip(list).V.(*ssa.Parameter); ok && p.Parent() == dist {
+			prm = p
+		}
+		if outer := c.outermost(dist); prm != nil && outer != dist && !escapesFrom(prm, nil) {
+			local = true
+			sites, _ := c.staticCallSites(dist)
+			for _, site := range sites {
+				for i, a := range site.Common().Args {
+					if i < len(dist.Params) && dist.Params[i] == prm {
+						root := a
+						if _, isPhi := root.(*ssa.Phi); !isPhi {
+							if _, isConst := root.(*ssa.Const); !isConst {
+								local = false
 							}
-						case *ssa.Phi:
-							walk(r)
-						case *ssa.Slice:
-							walk(r)
-						case ssa.CallInstruction:
-							if b, ok := r.Common().Value.(*ssa.Builtin); ok && (b.Name() == "append" || b.Name() == "len") {
-								if rv, ok := r.(ssa.Value); ok {
-									walk(rv)
-								}
-							} else if sc := r.Common().StaticCallee(); sc != nil && readOnlySliceFunc(sc) {
-								// read-only standard library search over the list
-							} else {
-								escapes = true
-							}
-						case *ssa.MakeClosure:
-							escapes = true
+						}
+						if escapesFrom(root, dist) {
+							local = false
 						}
 					}
 				}
 			}
-			walk(ph)
+			if len(sites) == 0 {
+				local = false
+			}
 		}
-		local = !escapes
 	}
 	c.Check(local, "C14.N4-distributor", key+" › listener list is private", snd.Pos(), "listener list is a local of the distributor, never stored or passed elsewhere", "listener list escapes the distributor goroutine")
 	// registration appends to the same list
